@@ -808,7 +808,15 @@ func (u *Unit) readField(st *State, base Val, f *types.Var, pos token.Pos) Val {
 		so := u.sortOf(pt.Elem())
 		fs := u.sortOf(f.Type())
 		h := u.heapGet(st, u.heapKeyField(so, f.Name()), "(Array Int "+fs+")")
-		return Val{T: app("select", h, base.T), Ty: f.Type(), So: fs}
+		v := Val{T: app("select", h, base.T), Ty: f.Type(), So: fs}
+		// values stored in the heap satisfy the invariants of their type
+		switch f.Type().Underlying().(type) {
+		case *types.Slice, *types.Map, *types.Basic:
+			if inv := u.typeInv(v); inv != "true" {
+				st.assume(inv)
+			}
+		}
+		return v
 	}
 	return Val{T: u.fieldOf(base, f.Name()), Ty: f.Type(), So: u.sortOf(f.Type())}
 }
